@@ -90,6 +90,12 @@ Example C08_example :
   chunks_from 41 16 0 body = [repeat 7 16; repeat 7 16; repeat 7 8].
 Proof. vm_compute. reflexivity. Qed.
 
+(* a served block never carries more payload than the size the request names (first fragments and follow-ups alike) *)
+Theorem C08_served_within_size : forall req b2 cached hm req', serve_cached req b2 cached = (Ok hm, req') ->
+  exists r', response req' = Some r' /\ len (payload r') <= block_size b2.
+Proof. exact served_within_size. Qed.
+Print Assumptions C08_served_within_size.
+
 (* non-vacuity of C08_whole_transfer: a 100-byte body at budget 100 (the server picks 64-byte blocks); the client then
    continues at 32-byte blocks (block 2 at 32 = offset 64) and finishes with a 16-byte block request (block 6 = offset 96) *)
 Definition ex_block2_req (k szx : N) : request :=
